@@ -250,28 +250,40 @@ def d3(chk):
     chk.floor("D3", 10)
 
 
-def d4(chk):
+def orbit_setters(chk, rule="D4", only=None):
+    """Orbit setters of the propagators keep a private snapshot of the orbit (or a plain reference with nothing derived)."""
     repo = chk.repo
-    # orbit setters
     for c in propagator_classes(repo):
         s = c.setters.get("orbit")
-        if s is None:
+        if s is None or (only is not None and c.name not in only):
             continue
         p = s.params()[1]
         stores = [n for n in ast.walk(s.node) if isinstance(n, ast.Assign) and unparse(n.targets[0]) in ("self._orbit", "self.tle")]
         derives = [n for n in ast.walk(s.node) if isinstance(n, ast.Assign) and unparse(n.targets[0]).startswith("self.") and unparse(n.targets[0]) not in ("self._orbit",)]
+        converting = [st for st in stores if isinstance(st.value, ast.Call) and call_name(st.value) == "copy" and st.value.keywords]
         for st in stores:
             v = st.value
+            if converting and isinstance(v, ast.Name) and v.id == p:
+                chk.inst(rule, f"{s.ref}::{unparse(st.targets[0])}::by-reference-arm", False,
+                         "one arm keeps the caller's orbit by reference while the other stores a converted private copy: the propagator needs its "
+                         "orbit in a fixed form / frame, and `Orbit.propagate` re-initialises only when `propagator.orbit is not self`, so an in-place "
+                         "form or frame change of the caller's orbit is integrated as if it were still in the propagator's form", loc(s, st))
+                continue
             snap = isinstance(v, ast.Call) and call_name(v) == "copy"
             by_ref = isinstance(v, ast.Name) and v.id == p
             if not (snap or by_ref):
                 continue      # a derived record (e.g. the sgp4 library object), not the source
             ok = snap or (by_ref and not derives)
-            chk.inst("D4", f"{s.ref}::{unparse(st.targets[0])}", ok,
+            chk.inst(rule, f"{s.ref}::{unparse(st.targets[0])}", ok,
                      "keeps a private snapshot of the orbit" if snap else "plain reference without derived state" if ok else
                      f"keeps the caller's orbit by reference and derives {[unparse(d.targets[0]) for d in derives if d is not st][:3]} from it: "
                      f"Orbit.propagate re-initialises only when `propagator.orbit is not self`, so after an in-place change of the orbit the stale "
                      f"derived record is used (old trajectory returned)", loc(s, st))
+
+
+def d4(chk):
+    repo = chk.repo
+    orbit_setters(chk)
     # Ephem: writers of the points must invalidate the interpolator
     eph = repo.cls(EPH, "Ephem")
     for name in ("frame", "form"):
